@@ -161,7 +161,7 @@ SOURCES = [
 KS_QUICK = [1, 2, 3, 5]
 GROUPS = [('slots_alloc', 'h_slots', 0, 0, {}), ('slots_rel_init', 'h_slots', 1, 2, {}), ('slots_k_allocs', 'h_slots', 3, 4, {}),
           ('g_ctor', 'h_guards', 0, 2, {}), ('g_assign', 'h_guards', 3, 4, {}), ('g_reset_swap_reclaim', 'h_guards', 5, 7, {}),
-          ('g_acquire', 'h_guards', 8, 8, dict(unwindset=['g_acquire_seq.0:3'], note='no interference: the retry loop runs at most twice (third iteration excluded by the unwinding assertion)')),
+          ('g_acquire', 'h_guards', 8, 8, dict(unwindset=['g_acquire_seq.0:2'], note='no interference: the retry loop body runs at most twice (a third pass is excluded by the unwinding assertion)')),
           ('g_acquire_if_equal', 'h_guards', 9, 9, {}),
           ('int_acquire', 'h_int', 0, 0, dict(mode='INT', note='retry loop of acquire cut by invariant ACQ; source cell and era clock rewritten by the environment before each load of them')),
           ('int_acquire_if_equal', 'h_int', 1, 1, dict(mode='INT')),
@@ -177,6 +177,7 @@ for k in KS_QUICK + [8]:
         nslot = (3 * k + max(k, (3 * k) // 2)) if dyn else k
         defs = {'XV_K': k, 'XV_OPS_LO': lo, 'XV_OPS_HI': hi}
         if dyn: defs['XV_DYN'] = 1; defs['XV_NBLK'] = nblk
+        if dyn or k >= 8: extra['solver'] = ['--sat-solver', 'cadical']   # minisat's incremental mode stalls on the larger slot universes
         RUNS.append(dict(dict(id='%s_K%d' % (name, k), entry=entry, tiers=tiers, cls='shape-complete', defs=defs, unwind=nslot + 2), **extra))
 
 OBL = {
@@ -230,6 +231,8 @@ UNIT = dict(
   sources=SOURCES, runs=RUNS,
   obligations={k: dict(deciding=True, text=v) for k, v in OBL.items()},
   loop_obligation={'ACQ': 'he.acquire.era_stable'},
-  replays={},
-  canaries=[],
+  replays={k: dict(src='replay_guard.cpp') for k in ['he.count.exact', 'he.guard_ops.preserve_inv', 'he.guard_ops.others_intact', 'he.guard_ops.holds_slot_iff_protecting',
+                                                     'he.guard_ops.empty_holds_no_slot', 'he.acquire.exc_safe', 'he.acquire_if_equal.exc_safe', 'he.acquire.null_holds_no_slot',
+                                                     'he.release.returns_slot', 'he.alloc.exhausted_throws']},
+  canaries=['acquire.left_shared', 'acquire.null', 'acquire.reuse_own', 'acquire.share_last', 'acquire.throw', 'aie.false', 'aie.throw', 'aie.true', 'aie.true_null', 'alloc.first_use', 'alloc.fresh', 'alloc.share', 'alloc.throw', 'alloc_k.done', 'assign_copy.other_slot', 'assign_copy.same_slot', 'assign_copy.self', 'assign_move.other', 'assign_move.self', 'copy.empty', 'copy.shared', 'ctor_ptr.fresh', 'ctor_ptr.null', 'ctor_ptr.shared', 'ctor_ptr.throw', 'dyn.new_block', 'dyn.no_new_block', 'initialize.done', 'int.acquire.new_slot', 'int.acquire.nonnull', 'int.acquire.throw', 'int.aie.false_first', 'int.aie.false_second', 'int.aie.throw', 'int.aie.true', 'move.empty', 'move.held', 'reclaim.noscan', 'reclaim.scan', 'release.null', 'release.shared', 'release.to_zero', 'reset.dtor', 'reset.empty', 'reset.shared', 'reset.to_zero', 'slot.era', 'slot.link', 'swap.done'],
 )
